@@ -74,8 +74,11 @@ class Run:
         self.accepting = set()
 
     # ------------------------------------------------------------ the schema oracle
-    def schema_oracle(self, name, cls, m, rec, how):
-        """the property text, read off the class: called when verify() accepted `m`"""
+    def schema_oracle(self, name, cls, m, rec, how, merged=False):
+        """the property text, read off the class: called when verify() accepted `m`.
+        Signature keys: a required parameter deleted by the request-object merge is
+        accepted:required-missing, a required list holding only "" is accepted:required-empty (both
+        known findings); every other acceptance of a missing / blank / not-allowed value has its own key."""
         d = m._dict
         for k, ent in cls.c_param.items():
             if k == "*":
@@ -83,10 +86,10 @@ class Run:
             typ, req = ent[0], ent[1]
             if req:
                 if k not in d:
-                    self.ctx.violation("accepted:required-missing",
+                    self.ctx.violation("accepted:required-missing" if merged else "accepted:required-removed",
                                        "%s of %s accepted although required %r is absent afterwards" % (how, name, k), rec)
                 elif typ is not bool and any(d[k] is e or (not isinstance(d[k], bool) and d[k] == e and type(d[k]) is type(e)) for e in EMPTY):
-                    self.ctx.violation("accepted:required-empty",
+                    self.ctx.violation("accepted:required-empty" if d[k] == [""] else "accepted:required-blank",
                                        "%s of %s accepted although required %r is empty (%r)" % (how, name, k, d[k]), rec)
             al = cls.c_allowed_values.get(k)
             if al is not None and k in d and d[k] not in EMPTY:
@@ -609,7 +612,7 @@ class Run:
         rec = {"class": "AuthorizationRequest", "embedded": "request", "variant": "request object without redirect_uri"}
         ctx.case_seen(rec, out[0] == "accepted")
         if out[0] == "accepted":
-            self.schema_oracle("oidc.AuthorizationRequest", AuthorizationRequest, m, rec, "verify() with a request object")
+            self.schema_oracle("oidc.AuthorizationRequest", AuthorizationRequest, m, rec, "verify() with a request object", merged=True)
 
     def run_model(self):
         ctx = self.ctx
